@@ -158,3 +158,34 @@ H_ENTRY(h_mpi_roundtrip) {
   vf_assert(gcry_mpi_cmp(a, b) == 0, "PacketMPIDecode(PacketMPIEncode(x)) == x");
   H_END();
 }
+
+// ---- RFC 4880 sections 5.7, 5.9, 5.11, 5.14: simple packets = new-format tag octet, body length, body; and decoding
+//      an emitted packet with PacketBodyExtract recovers tag and body
+#ifndef H_PKMAX
+#define H_PKMAX 3
+#endif
+static void expect_packet(const tmcg_openpgp_octets_t &out, unsigned tag, const tmcg_openpgp_octets_t &body) {
+  vf_assert(out.size() == 2 + body.size(), "packet = tag octet + one-octet length + body (body < 192 octets)");
+  if (out.size() == 2 + body.size()) {
+    vf_assert(out[0] == (0xC0 | tag), "new-format tag octet");
+    vf_assert(out[1] == body.size(), "one-octet body length");
+    for (size_t i = 0; i < body.size(); ++i) vf_assert(out[2 + i] == body[i], "body octets in order");
+  }
+  tmcg_openpgp_octets_t back;
+  tmcg_openpgp_byte_t t = PGP::PacketBodyExtract(out, 0, back);
+  vf_assert(t == tag, "PacketBodyExtract recovers the tag of an emitted packet");
+  vf_assert(back == body, "PacketBodyExtract recovers the body of an emitted packet");
+}
+H_ENTRY(h_simple_packets) {
+  tmcg_openpgp_octets_t in, out, body;
+  vfh_bytes(in, H_PKMAX);
+  unsigned which = vf_nondet_u8() % 3;
+  if (which == 0) { PGP::PacketSedEncode(in, out); expect_packet(out, 9, in); }
+  else if (which == 1) { std::string uid; for (size_t i = 0; i < in.size(); ++i) uid += (char)in[i]; PGP::PacketUidEncode(uid, out); expect_packet(out, 13, in); }
+  else {
+    PGP::PacketLitEncode(in, out);
+    vf_assert(out.size() == 2 + 6 + in.size() && out[0] == (0xC0 | 11) && out[1] == 6 + in.size() && out[2] == 0x62 && out[3] == 0, "literal packet: tag 11, length, format b, empty file name");
+    if (out.size() == 8 + in.size()) for (size_t i = 0; i < in.size(); ++i) vf_assert(out[8 + i] == in[i], "literal data follows the four-octet date");
+  }
+  H_END();
+}
